@@ -1,18 +1,26 @@
 """C16 — pointers: width from configuration, dereference reads the target in place.
 
-Pointer widths 8/16/24/32/48/64 x endianness x targets (scalars, char strings, structs, pointers to pointers) x addresses
+Pointer widths 8/16/24/32/48/64/128 x endianness x targets (scalars, char strings, structs, pointers to pointers) x addresses
 (null, in range, beyond the stream) x compiled/interpreted.  The oracle for a dereference is parsing the target type at
 that absolute offset with a separately loaded copy of the type; the Lean model (`deref`) is compared as well.
+
+Pointer-array probe: structures whose only pointers sit in fixed-size arrays (`T *arr[3]` between scalars, `T *arr[2]`
+alone, `T *arr[2][2]`, a pointer array next to an array of pointers to pointers), every width including the not struct-packable ones (uint24/uint48/uint128), both readers; every
+element is dereferenced and compared with the parse of the target at its address.  Boundary-address probe: scalar
+pointers, pointer-to-pointer members and pointer arrays holding the addresses at the edges of the n-bit address space
+(0, 1, 2**n-1, 2**n-2, 2**(n-1) and neighbours, byte patterns; each at every position) must read as those unsigned integers and dump back
+unchanged through every writing path (structure dumps()/write(), pointer.dumps(), PointerType.dumps(int), array dumps(),
+a structure constructed from plain integers), for every width and endianness.
 """
 from __future__ import annotations
 
 import io
 import itertools
 
-from .. import common, defs, impl, refimpl
+from .. import common, defs, impl, refimpl, s2_ptr
 from ..common import A, Case, Result, mkrng, parse_sexp, run_driver, sx
 
-PTRS = {"uint8": 1, "uint16": 2, "uint24": 3, "uint32": 4, "uint48": 6, "uint64": 8}
+PTRS = dict(s2_ptr.ALL_PTRS)   # uint8 .. uint128, packable and not
 S = lambda n: ("sc", n)  # noqa: E731
 TARGETS = {
     "uint8": S("uint8"), "int16": S("int16"), "uint32": S("uint32"), "uint24": S("uint24"), "double": S("double"), "E8": ("enum", "E8"),
@@ -29,11 +37,12 @@ def sig_F11(case):
 
 def run(env) -> Result:
     res = Result()
-    res.rule = ("pointer widths {8,16,24,32,48,64} x {<,>} x {interpreted, compiled} x 11 target types (scalars, enum, char string, wchar, void, "
-                "fixed struct, dynamic struct) plus pointer-to-pointer, pointer arrays and pointers inside unions; addresses: null, random in "
-                "range, last byte, beyond the stream; checks: field width, unsigned value, dereference == parse of the target at that offset, "
-                "stream position untouched, stability, null/streamless errors, arithmetic, dump. distinct = (config, target, address, data); "
-                "non-trivial = non-null address")
+    res.rule = ("pointer widths {8,16,24,32,48,64,128} x {<,>} x {interpreted, compiled} x 11 target types (scalars, enum, char string, wchar, void, "
+                "fixed struct, dynamic struct) plus pointer-to-pointer, pointer arrays and pointers inside unions; structures whose only pointers "
+                "are in arrays (4 shapes, every element dereferenced); addresses: null, random in range, last byte, beyond the stream, and the "
+                "edges of the n-bit address space (0, 1, 2**n-1, 2**n-2, 2**(n-1)+-1, byte patterns); checks: field width, unsigned value, "
+                "dereference == parse of the target at that offset, stream position untouched, stability, null/streamless errors, arithmetic, "
+                "dump back unchanged through 10 writing paths. distinct = (config, target, address, data); non-trivial = non-null address")
     dc = impl.dc()
     rnd = mkrng(env["seed"], "c16")
     tier = env["tier"]
@@ -47,6 +56,52 @@ def run(env) -> Result:
             res.violations.append(Case("property", what, data))
 
     from dissect.cstruct.exceptions import NullPointerDereference
+
+
+    class Ctx:
+        """one parsed stream: the oracle for a dereference and the dereference predicate"""
+
+        def __init__(self, L, Lt, tgt, tname, stream, data, cd):
+            self.L, self.Lt, self.tgt, self.tname, self.stream, self.data, self.cd = L, Lt, tgt, tname, stream, data, cd
+
+        def expect(self, addr):
+            """what dereferencing at addr must give: ('null',) | ('ok', canon) | ('err', cls)"""
+            ty, Tt, data = self.tgt, self.Lt.T, self.data
+            if addr == 0:
+                return ("null",)
+            if ty == S("void"):
+                return ("ok", [A("void")])
+            if ty == S("char"):
+                end = data.find(b"\x00", addr) if addr <= len(data) else -1
+                return ("ok", [A("bytes"), data[addr:end]]) if end >= 0 and addr <= len(data) else ("err", "EOFError")
+            r = impl.parse(Tt, data, addr) if addr <= len(data) + 8 else ("err", "EOFError")
+            return ("ok", impl.canon(r[1].v)) if r[0] == "ok" else r
+
+        def check(self, ptrobj, addr, what):
+            L, stream, data, cd = self.L, self.stream, self.data, self.cd
+            want = self.expect(addr)
+            res.count((L.pointer, L.endian, L.compiled, self.tname, addr, data), addr != 0)
+            pos0 = stream.tell()
+            try:
+                v = ptrobj.dereference()
+                got = ("ok", [A("void")] if v is None else impl.canon(v))   # a void target is never read: None
+                v2 = ptrobj.dereference()
+                if v2 is not v and (v is None or impl.canon(v2) != impl.canon(v)):
+                    viol(f"{what}: repeated dereference gives a different value", dict(cd, addr=addr))
+            except NullPointerDereference:
+                got = ("null",)
+            except Exception as e:  # noqa: BLE001
+                got = ("err", impl.err_class(e))
+            if stream.tell() != pos0:
+                viol(f"{what}: dereferencing moved the stream from {pos0} to {stream.tell()}", dict(cd, addr=addr))
+            ok = got == want or (got[0] == want[0] == "ok" and impl.same_val(want[1], got[1])) or (got[0] == want[0] == "err")
+            if not ok:
+                viol(f"{what} at {addr}: dereference gives {str(got)[:200]}, parsing the target there gives {str(want)[:200]}", dict(cd, addr=addr))
+            # model
+            if self.tname not in ("wchar",) or got[0] != "err":
+                lines.append(sx([A("deref"), L.cfg_sexp(), impl.real_ty_sexp(self.tgt, self.Lt.T.fields["v"].type, False), data, addr, 1]))
+                metas.append((dict(cd, addr=addr), got))
+            return got
 
     for (pname, psz), endian, compiled in itertools.product(PTRS.items(), "<>", (False, True)):
         order = "little" if endian == "<" else "big"
@@ -65,7 +120,7 @@ def run(env) -> Result:
             cd0 = {"definition": L.text, "endian": endian, "compiled": compiled, "pointer": pname, "target": tname}
             if T.size != hdr or T.fields["p"].type.size != psz:
                 viol(f"a {pname} pointer field does not occupy {psz} bytes (structure size {T.size}, expected {hdr})", cd0)
-            total = 96 if psz > 1 else 200
+            total = 200 if psz == 1 else 96 if psz <= 8 else 160
             for _ in range(3 if tier == "quick" else 12):
                 payload = bytes(rnd.choice([0, 1, 2, 0x41, 0x42, 0x7F, 0x80, 0xFF, rnd.randrange(256)]) for _ in range(total - hdr))
                 maxaddr = min(total + 3, (1 << (8 * psz)) - 1)
@@ -95,44 +150,12 @@ def run(env) -> Result:
                 if not (type(o.p + 4) is type(o.p) and int(o.p + 4) == a_p + 4 and (o.p + 4)._stream is o.p._stream and int(o.p - 1) == a_p - 1 and type(o.p - 1) is type(o.p)):
                     viol("pointer arithmetic does not yield a pointer of the same type on the same stream", cd)
 
-                def expect(addr, ty=tgt, Tt=Lt.T):
-                    """what dereferencing at addr must give: ('null',) | ('ok', canon) | ('err', cls)"""
-                    if addr == 0:
-                        return ("null",)
-                    if ty == S("void"):
-                        return ("ok", [A("void")])
-                    if ty == S("char"):
-                        end = data.find(b"\x00", addr)
-                        return ("ok", [A("bytes"), data[addr:end]]) if end >= 0 and addr <= len(data) else ("err", "EOFError")
-                    r = impl.parse(Tt, data, addr) if addr <= len(data) + 8 else ("err", "EOFError")
-                    return ("ok", impl.canon(r[1].v)) if r[0] == "ok" else r
-
-                def check(ptrobj, addr, what):
-                    want = expect(addr)
-                    res.count((pname, endian, compiled, tname, addr, data), addr != 0)
-                    pos0 = stream.tell()
-                    try:
-                        v = ptrobj.dereference()
-                        got = ("ok", [A("void")] if v is None else impl.canon(v))   # a void target is never read: None
-                        v2 = ptrobj.dereference()
-                        if v2 is not v and (v is None or impl.canon(v2) != impl.canon(v)):
-                            viol(f"{what}: repeated dereference gives a different value", dict(cd, addr=addr))
-                    except NullPointerDereference:
-                        got = ("null",)
-                    except Exception as e:  # noqa: BLE001
-                        got = ("err", impl.err_class(e))
-                    if stream.tell() != pos0:
-                        viol(f"{what}: dereferencing moved the stream from {pos0} to {stream.tell()}", dict(cd, addr=addr))
-                    ok = got == want or (got[0] == want[0] == "ok" and impl.same_val(want[1], got[1])) or (got[0] == want[0] == "err")
-                    if not ok:
-                        viol(f"{what} at {addr}: dereference gives {str(got)[:200]}, parsing the target there gives {str(want)[:200]}", dict(cd, addr=addr))
-                    # model
-                    if tname not in ("wchar",) or got[0] != "err":
-                        lines.append(sx([A("deref"), L.cfg_sexp(), impl.real_ty_sexp(tgt, Lt.T.fields["v"].type, False), data, addr, 1]))
-                        metas.append((dict(cd, addr=addr), got))
+                ctx = Ctx(L, Lt, tgt, tname, stream, data, cd)
+                check = ctx.check
 
                 check(o.p, a_p, "p")
                 check(o.arr[0], a_arr[0], "arr[0]")
+                check(o.arr[1], a_arr[1], "arr[1]")
                 # pointer to pointer: first level is a pointer stored at a_pp_slot
                 try:
                     innerp = o.pp.dereference()
@@ -156,6 +179,155 @@ def run(env) -> Result:
                 viol(f"a pointer without a stream raises {type(e).__name__}, not NullPointerDereference", cd0)
             lines.append(sx([A("deref"), L.cfg_sexp(), impl.real_ty_sexp(tgt, Lt.T.fields["v"].type, False), b"\x01\x02\x03\x04", 2, 0]))
             metas.append((dict(cd0, addr=2, streamless=True), ("null",)))
+    # ---- pointer arrays without scalar pointers: every element dereferenced, every width, both readers
+    F = lambda n, ty: {"name": n, "ty": ty, "bits": None}  # noqa: E731
+    shapes = {
+        "arr[3] between scalars": (lambda t: [F("a", S("uint8")), F("arr", ("arr", ("ptr", t), ("fixed", 3))), F("z", S("uint8"))], 1, [3]),
+        "arr[2] alone": (lambda t: [F("arr", ("arr", ("ptr", t), ("fixed", 2)))], 0, [2]),
+        "arr[2][2] then scalar": (lambda t: [F("arr", ("arr", ("arr", ("ptr", t), ("fixed", 2)), ("fixed", 2))), F("z", S("uint8"))], 0, [2, 2]),
+        "two arrays": (lambda t: [F("n", S("uint16")), F("arr", ("arr", ("ptr", t), ("fixed", 2))), F("arr2", ("arr", ("ptr", ("ptr", t)), ("fixed", 1)))], 2, [2]),
+    }
+    for (pname, psz), endian, compiled in itertools.product(PTRS.items(), "<>", (False, True)):
+        order = "little" if endian == "<" else "big"
+        for (shname, (mk, lead, dims)), (tname, tgt) in itertools.product(shapes.items(), TARGETS.items()):
+            if tier == "quick" and rnd.random() < 0.5:
+                continue
+            tree = ("struct", mk(tgt))
+            try:
+                L = impl.Loaded(tree, endian=endian, align=False, compiled=compiled, pointer=pname)
+                Lt = impl.Loaded(("struct", [{"name": "v", "ty": tgt, "bits": None}]), endian=endian, align=False, compiled=False, pointer=pname)
+            except Exception as e:  # noqa: BLE001
+                viol(f"definition with arrays of {pname} pointers rejected: {type(e).__name__}: {e}", {"pointer": pname, "target": tname, "shape": shname})
+                continue
+            T = L.T
+            slots = s2_ptr.pointer_slots(T)
+            nel = dims[0] * (dims[1] if len(dims) > 1 else 1)
+            cd0 = {"definition": L.text, "endian": endian, "compiled": compiled, "pointer": pname, "target": tname, "shape": shname,
+                   "compiled_flag": bool(T.__compiled__)}
+            if T.size is None or slots[:nel] != [lead + i * psz for i in range(nel)] or T.fields["arr"].type.size != nel * psz:
+                viol(f"an array of {nel} {pname} pointers does not occupy {nel} x {psz} bytes at offset {lead} (slots {slots}, structure size {T.size})", cd0)
+                continue
+            total = 80 if psz > 1 else 200
+            for _ in range(2 if tier == "quick" else 8):
+                data = bytearray(bytes(rnd.choice([0, 1, 2, 0x41, 0x42, 0x7F, 0x80, 0xFF, rnd.randrange(256)]) for _ in range(total)))
+                top = (1 << (8 * psz)) - 1
+                addrs = {}
+                for off in slots:
+                    a = rnd.choice([0, rnd.randint(1, min(total - 1, top)), rnd.randint(T.size, min(total - 1, top)), rnd.randint(T.size, min(total - 1, top)),
+                                    min(total - 1, top), min(total + rnd.randint(0, 5), top)])
+                    addrs[off] = a
+                    data[off:off + psz] = a.to_bytes(psz, order)
+                if shname == "two arrays":
+                    # arr2[0] points at a slot holding another pointer
+                    slot = rnd.randint(T.size, min(total - psz - 1, top))
+                    inner = rnd.choice([0, rnd.randint(1, min(total - 1, top))])
+                    data[slots[2]:slots[2] + psz] = slot.to_bytes(psz, order)
+                    data[slot:slot + psz] = inner.to_bytes(psz, order)
+                    addrs[slots[2]] = slot
+                data = bytes(data)
+                stream = io.BytesIO(data)
+                try:
+                    o = T(stream)
+                except Exception as e:  # noqa: BLE001
+                    viol(f"parsing a structure with an array of {pname} pointers raises {type(e).__name__}: {e}", dict(cd0, data=data.hex()))
+                    continue
+                res.feat(f"ptr-array:{pname}")
+                res.feat(f"ptr-array-shape:{shname}")
+                res.feat(f"ptr-array:compiled-flag:{bool(T.__compiled__)}")
+                cd = dict(cd0, data=data.hex())
+                flat = [x for row in o.arr for x in row] if len(dims) > 1 else list(o.arr)
+                want_addrs = [addrs[off] for off in slots[:nel]]
+                if [int(x) for x in flat] != want_addrs or stream.tell() != T.size:
+                    viol(f"array elements {[int(x) for x in flat]} are not the unsigned integers stored {want_addrs} (stream at {stream.tell()}, size {T.size})", cd)
+                    continue
+                if o.dumps() != data[:T.size]:
+                    viol("dumping a structure with a pointer array does not write the addresses back unchanged", cd)
+                ctx = Ctx(L, Lt, tgt, tname, stream, data, cd)
+                for i, (x, a) in enumerate(zip(flat, want_addrs)):
+                    ctx.check(x, a, f"arr element {i}")
+                    if a:
+                        y = x + 1
+                        if type(y) is not type(x) or int(y) != a + 1 or y._stream is not x._stream:
+                            viol(f"arr element {i}: pointer arithmetic does not yield a pointer of the same type on the same stream", dict(cd, addr=a))
+                        elif a + 1 < total:
+                            ctx.check(y, a + 1, f"arr element {i} + 1")
+                if shname == "two arrays":
+                    try:
+                        ip = o.arr2[0].dereference()
+                        if int(ip) != inner:
+                            viol(f"arr2[0] dereferences to address {int(ip)}, the pointer stored at {slot} is {inner}", cd)
+                        else:
+                            ctx.check(ip, inner, "*arr2[0]")
+                            res.feat("pointer-to-pointer-in-array")
+                    except Exception as e:  # noqa: BLE001
+                        viol(f"dereferencing arr2[0] (address {slot}, inside the stream) raises {type(e).__name__}", cd)
+    # ---- boundary addresses: read as the unsigned integer stored and dump back unchanged, through every writing path
+    tgt = S("uint8")
+    for (pname, psz), endian, compiled in itertools.product(PTRS.items(), "<>", (False, True)):
+        order = "little" if endian == "<" else "big"
+        tree = ("struct", [F("a", S("uint8")), F("p", ("ptr", tgt)), F("pp", ("ptr", ("ptr", tgt))), F("arr", ("arr", ("ptr", tgt), ("fixed", 3))),
+                           F("z", S("uint8"))])
+        try:
+            L = impl.Loaded(tree, endian=endian, align=False, compiled=compiled, pointer=pname)
+            Lt = impl.Loaded(("struct", [{"name": "v", "ty": tgt, "bits": None}]), endian=endian, align=False, compiled=False, pointer=pname)
+        except Exception as e:  # noqa: BLE001
+            viol(f"definition with {pname} pointers rejected: {type(e).__name__}: {e}", {"pointer": pname})
+            continue
+        T = L.T
+        PT, AT = T.fields["p"].type, T.fields["arr"].type
+        bnd = s2_ptr.boundary_addresses(psz)
+        top = (1 << (8 * psz)) - 1
+        # every boundary address at every position (p, pp, each array element), then random addresses
+        n = len(bnd)
+        combos = [[bnd[(k + j) % n] for j in range(5)] for k in range(n)]
+        combos += [[top] * 5, [rnd.choice(bnd) for _ in range(5)]]
+        combos += [[rnd.randint(0, top) for _ in range(5)] for _ in range(2 if tier == "quick" else 12)]
+        for combo in combos:
+            a_p, a_pp, a_arr = combo[0], combo[1], combo[2:5]
+            enc = lambda x: x.to_bytes(psz, order)  # noqa: E731
+            head = bytes([7]) + enc(a_p) + enc(a_pp) + b"".join(enc(x) for x in a_arr) + bytes([9])
+            data = head + bytes(rnd.randrange(256) for _ in range(300 - len(head)))
+            cd = {"definition": L.text, "endian": endian, "compiled": compiled, "pointer": pname, "data": head.hex(),
+                  "addresses": {"p": a_p, "pp": a_pp, "arr": a_arr}}
+            stream = io.BytesIO(data)
+            try:
+                o = T(stream)
+            except Exception as e:  # noqa: BLE001
+                viol(f"parsing {pname} pointers at the edge of the address space raises {type(e).__name__}: {e}", cd)
+                continue
+            for a in [a_p, a_pp, *a_arr]:
+                res.count(("boundary", pname, endian, compiled, a), a != 0)
+                res.feat("boundary-address:" + ("top" if a == top else "null" if a == 0 else "top-1" if a == top - 1 else "msb" if a == (top + 1) >> 1 else "other"))
+            got = (int(o.p), int(o.pp), [int(x) for x in o.arr])
+            if got != (a_p, a_pp, a_arr) or stream.tell() != len(head):
+                viol(f"pointer values {got} are not the unsigned integers stored {(a_p, a_pp, a_arr)}", cd)
+                continue
+            out = io.BytesIO()
+            paths = [("structure.dumps()", lambda: o.dumps(), head),
+                     ("structure.write(stream)", lambda: (o.write(out), out.getvalue())[1], head),
+                     ("pointer.dumps() of member p", lambda: o.p.dumps(), enc(a_p)),
+                     ("pointer.dumps() of member pp", lambda: o.pp.dumps(), enc(a_pp)),
+                     ("PointerType.dumps(int)", lambda: PT.dumps(a_p), enc(a_p)),
+                     ("array.dumps() of member arr", lambda: o.arr.dumps(), b"".join(enc(x) for x in a_arr)),
+                     ("ArrayType.dumps(list of int)", lambda: AT.dumps(list(a_arr)), b"".join(enc(x) for x in a_arr)),
+                     ("pointer.dumps() of element arr[2]", lambda: o.arr[2].dumps(), enc(a_arr[2])),
+                     ("dumps() of a structure constructed from integers", lambda: T(a=7, p=a_p, pp=a_pp, arr=list(a_arr), z=9).dumps(), head),
+                     ("(p + 0).dumps()", lambda: (o.p + 0).dumps(), enc(a_p))]
+            for what, fn, want in paths:
+                res.feat("dump-path:" + what)
+                try:
+                    b = fn()
+                except Exception as e:  # noqa: BLE001
+                    viol(f"{what}: dumping {pname} pointers at the edge of the address space raises {type(e).__name__}: {e}", dict(cd, path=what))
+                    continue
+                if b != want:
+                    viol(f"{what} does not write the addresses back unchanged: wrote {b.hex()}, the addresses {(a_p, a_pp, a_arr)} were read from {want.hex()}",
+                         dict(cd, path=what, wrote=b.hex(), expected=want.hex()))
+            # and what they dereference to (the whole 8-bit address space lies inside the stream)
+            ctx = Ctx(L, Lt, tgt, "uint8", stream, data, cd)
+            ctx.check(o.p, a_p, "p")
+            for j, x in enumerate(o.arr):
+                ctx.check(x, a_arr[j], f"arr[{j}]")
     # pointer inside a fixed-size union (finding F11): the dereference must read the outer stream
     for pname, endian in itertools.product(("uint16", "uint32"), "<>"):
         cs = dc.cstruct(endian=endian, pointer=pname)
